@@ -186,7 +186,15 @@ def redrive(src):
         yield e
 
 
-MODELS = {"quick": [], "thorough": []}
+_M = [("Subset", "C13_Subset.cfg", "the subset construction's own result satisfies the NFA->DFA checker's criterion "
+       "(all NFA(2,{a,b}))", {"allow_untaken": True}),
+      ("Hopcroft", "C13_Hopcroft.cfg", "Hopcroft's result passes the minimal-DFA checker's criterion (all DFA(3,{a,b}), all "
+       "schedules)", {"allow_untaken": True}),
+      ("Quotient", "C13_Quotient.cfg", "the quotient's result passes it too", {"allow_untaken": True}),
+      ("GnfaRip", "C13_GnfaRip.cfg", "state elimination's expression passes the DFA->regexp checker's criterion (all "
+       "DFA(3,{a,b}), all orders)", {"allow_untaken": True}),
+      ("Cyk", "C13_Cyk.cfg", "the CYK table passes the table checker's criterion", {"allow_untaken": True})]
+MODELS = {"quick": _M, "thorough": _M}
 RULE = ("21 exercise types x seeded random references (DFAs with 1-4 states over {a},{a,b},{a,b,c},{0,1}; NFAs; "
         "non-degenerate simple-format grammars; regexps) + every shipped example file: the answer text is produced by "
         "notebooks/make_notebook.apply_command on a temporary reference file and handed to the checker exactly as the "
